@@ -394,7 +394,8 @@ func (cw *chunkWriter) writeHeader(p []byte) {
 
 	if w.req.Method == "HEAD" || code == bfe_http.StatusNotModified {
 		// do nothing
-	} else if code == bfe_http.StatusNoContent {
+	} else if !bodyAllowedForStatus(code) {
+		// 1xx and 204 responses have no body either: never switch to chunking
 		delHeader("Transfer-Encoding")
 	} else if hasCL {
 		delHeader("Transfer-Encoding")
